@@ -18,3 +18,20 @@ VERUS = {
                  'PRE packed_values.len() <= 2^40 (A3 machine size: an in-memory felt vector)'],
     ),
 }
+
+_ENM = 'crates/cairo-lang-sierra-to-casm/src/invocations/enm.rs'
+KANI = {
+    'variant_selector': dict(
+        crate='cairo-lang-sierra-to-casm',
+        host=_ENM,
+        harness='kani/cairo-lang-sierra-to-casm/variant_selector.rs',
+        props={'C14'},
+        attrs=[dict(file=_ENM, fn='get_variant_selector',
+                    lines=['#[cfg_attr(kani, kani::requires(index < n_variants))]',
+                           '#[cfg_attr(kani, kani::ensures(|r: &Result<usize, InvocationError>| '
+                           'crate::invocations::enm::__verif_variant_selector::selector_post(n_variants, index, r)))]'])],
+        functions=[(_ENM, None, 'get_variant_selector')],
+        trusted=['PRE index < n_variants of get_variant_selector is established upstream (validate_const_enum_data; EnumInitLibfunc::specialize '
+                 'range check); c14_variant_selector_pre_needed shows inputs outside it do panic'],
+    ),
+}
